@@ -232,6 +232,11 @@ func SliceDetails(s Slice, size int) (start, end, step int, err error) {
 		if err = CheckSlice(s, size); err != nil {
 			return
 		}
+		if s.Step() < 0 {
+			// (iterators may be sliced backwards; the access patterns of tensors cannot)
+			err = errors.Errorf("Slice has a negative step %d", s.Step())
+			return
+		}
 
 		start = s.Start()
 		end = s.End()
